@@ -949,6 +949,19 @@ func (e *SpecEnv) callExpr(n *Node) *SVal {
 			cs = append(cs, "(forall (("+r+" Int)) (=> "+sAnd(guard...)+" (= (select "+t1+" "+r+") (select "+t0+" "+r+"))))")
 		}
 		return boolVal(sAnd(cs...))
+	case "bytesof":
+		// bytesof(s): the bytes of string s as a slice value, only for passing to pure functions
+		// (what the code writes as f([]byte(s)))
+		need(1)
+		sv := e.force(e.eval(args[0]))
+		if kindOf(sv.T) != KStr {
+			sfail("bytesof: string expected")
+		}
+		x.declStrEmpty()
+		f := x.em.Func("str2bytes", []string{"Str"}, "(Array Int Int)")
+		ln := "(strlen " + sv.Term + ")"
+		return &SVal{T: types.NewSlice(types.Typ[types.Uint8]), Row: sApp(f, sv.Term),
+			F: []*SVal{leaf(intType, "0"), leaf(intType, "0"), leaf(intType, ln), leaf(intType, ln)}}
 	case "sameslice":
 		need(2)
 		a := e.force(e.eval(args[0]))
